@@ -10,7 +10,7 @@ use std::rc::Rc;
 
 pub struct C09;
 
-const NSYM: u64 = 18;
+const NSYM: u64 = 19;
 
 #[derive(Clone, Copy, PartialEq, Debug)]
 enum Expect {
@@ -196,6 +196,15 @@ impl Builder {
             }
             15 => self.ops.push(WOp::End { f: 400 + k }),
             16 => self.ops.push(WOp::Flush),
+            18 => {
+                // append to the OLDEST open file (interleaving with the files opened after it)
+                let f = self.open.first().copied().unwrap_or(300 + k);
+                let mut d = self.data(k);
+                if let Some(r) = rng {
+                    d = d.with_len(*r.pick(&[1usize, 3, 8, 33, 129]));
+                }
+                self.ops.push(WOp::Append { f, data: d, src: Src::exact() });
+            }
             _ => {
                 if self.open.is_empty() {
                     self.finalized = true;
@@ -219,7 +228,7 @@ impl Prop for C09 {
         "exploration"
     }
     fn rule(&self) -> String {
-        "run = one writer call sequence over an 18-symbol alphabet {start(fresh | duplicate | empty | 65536-byte | 65537-byte name), add(fresh | duplicate | 65537-byte name), append(to the open file from an exact | short | longer source; to an ended file; to a never-issued id), end(open | ended | never-issued id), flush, finalize}. ALL sequences of length 1..3 (quick) / 1..4 (thorough) are enumerated on the s0 build without layers; the remaining runs are seeded sequences of length 5..40 on all variants and layer sets with seeded piece sizes. A model interprets the sequence: which calls must be refused (duplicate or over-long name, file not open, anything after finalize, finalize with open files), what the archive described by the accepted calls is. Oracle: the library refuses exactly those calls; a short source is never Ok; afterwards the harness ends the open files and finalizes, and the archive must read back to the model that ignored the refused calls (listing, sizes, bytes, hashes), repair of it must give the same files and linear extraction must agree. After a short source the archive counts as poisoned: only no-panic is demanded. distinct_nontrivial = distinct (variant, layers, multiset of (symbol, outcome) pairs, final state) signatures.".into()
+        "run = one writer call sequence over a 19-symbol alphabet {start(fresh | duplicate | empty | 65536-byte | 65537-byte name), add(fresh | duplicate | 65537-byte name), append(to the most recently opened file from an exact | short | longer source; to the oldest open file; to an ended file; to a never-issued id), end(open | ended | never-issued id), flush, finalize}. ALL sequences of length 1..3 (quick) / 1..4 (thorough) are enumerated on the s0 build without layers; the remaining runs are seeded sequences of length 5..40 on all variants and layer sets with seeded piece sizes. A model interprets the sequence: which calls must be refused (duplicate or over-long name, file not open, anything after finalize, finalize with open files), what the archive described by the accepted calls is. Oracle: the library refuses exactly those calls; a short source is never Ok; afterwards the harness ends the open files and finalizes, and the archive must read back to the model that ignored the refused calls (listing, sizes, bytes, hashes), repair of it must give the same files and linear extraction must agree. After a short source the archive counts as poisoned: only no-panic is demanded. distinct_nontrivial = distinct (variant, layers, multiset of (symbol, outcome) pairs, final state) signatures.".into()
     }
     fn assumptions(&self) -> Vec<String> {
         vec!["a source longer than announced is legal (the first `size` bytes are kept); flush after finalize is not a refused call".into()]
@@ -262,7 +271,7 @@ impl Prop for C09 {
         let len = rng.range(5, 40);
         for _ in 0..len {
             // valid symbols are more likely, so that sequences make progress
-            let sym = *rng.pick(&[0u64, 0, 0, 1, 2, 3, 4, 5, 5, 6, 7, 8, 8, 8, 8, 9, 10, 10, 11, 12, 13, 13, 13, 14, 15, 16, 17]);
+            let sym = *rng.pick(&[0u64, 0, 0, 1, 2, 3, 4, 5, 5, 6, 7, 8, 8, 8, 8, 9, 10, 10, 11, 12, 13, 13, 13, 14, 15, 16, 17, 18, 18, 18]);
             let mut r2 = rng.clone();
             b.push(sym, Some(&mut r2));
             rng.u64();
